@@ -26,12 +26,13 @@ SCENE = """<mujoco>
     <body name="arm" pos="1 0 0.6">
       <joint name="h" type="hinge" axis="0 1 0" damping="0.2 0.05" stiffness="2 0.5 0.1" armature="0.05" frictionloss="0.1" limited="true" range="-0.4 0.4" margin="0.01"
              solreflimit="0.03 1" solimplimit="0.9 0.95 0.001 0.5 2" springref="0.1" actuatorfrclimited="true" actuatorfrcrange="-3 3"/>
-      <geom name="garm" type="capsule" fromto="0 0 0 0.4 0 0" size="0.03" mass="0.5"/>
+      <geom name="garm" type="capsule" fromto="0 0 0 0.3 0 0" size="0.03" mass="0.5"/>
       <site name="sa" pos="0.4 0 0"/>
       <camera name="c1" pos="0.1 0 0.1"/>
       <body name="fore" pos="0.4 0 0">
         <joint name="h2" type="slide" axis="0 0 1" damping="0.1" limited="true" range="-0.05 0.05"/>
         <geom name="gfore" type="ellipsoid" size="0.05 0.03 0.04" mass="0.3" fluidshape="ellipsoid"/>
+        <geom name="gfs" type="sphere" size="0.04" pos="-0.08 0 0" mass="0.05"/>
         <site name="sf" pos="0 0 0.05"/>
       </body>
     </body>
